@@ -424,7 +424,7 @@ def rare_table(repo, chk):
     chk.expect(ok, 'C13.7a', 'R15', fn.site(loops[0]) if loops else fn.site(), 'rows [namespace, value, count] for every entry of the store', 'rare table lists every remaining (column, value) with its exact count',
                'the rare-value table must contain one row [namespace, value, count] for every entry of the rare-value store, unfiltered')
     wr = [c for c in calls(fn, attr='to_csv') if 'rare_values.tsv' in ast.unparse(c)]
-    okw = len(wr) == 1 and isinstance(wr[0].func.value, ast.Name) and any(isinstance(n, (ast.Assign, ast.AnnAssign)) and n.value is not None and ast.unparse(n.targets[0] if isinstance(n, ast.Assign) else n.target) == wr[0].func.value.id and 'DataFrame(out_df_rows)' in ast.unparse(n.value) for n in own_nodes(fn.node)) \
+    okw = len(wr) == 1 and isinstance(wr[0].func.value, ast.Name) and any(isinstance(n, (ast.Assign, ast.AnnAssign)) and n.value is not None and ast.unparse(n.targets[0] if isinstance(n, ast.Assign) else n.target) == wr[0].func.value.id and 'DataFrame(' in ast.unparse(n.value) and loops and any(isinstance(c, ast.Call) and isinstance(c.func, ast.Attribute) and c.func.attr == 'append' and isinstance(c.func.value, ast.Name) and f'DataFrame({c.func.value.id})' in ast.unparse(n.value) for c in ast.walk(loops[0])) for n in own_nodes(fn.node)) \
         and not _conditional(fn, wr[0])
     chk.expect(okw, 'C13.7d', 'origin', fn.site(wr[0]) if wr else fn.site(), ast.unparse(wr[0]).replace('\n', ' ')[:120] if wr else 'out_df.to_csv(rare_values.tsv)', 'rare_values.tsv is written from exactly these rows', 'rare_values.tsv must be written, unconditionally, from the frame of all [namespace, value, count] rows')
     cols = [n for n in own_nodes(fn.node) if isinstance(n, ast.Assign) and ast.unparse(n.targets[0]).endswith('.columns') and isinstance(n.value, ast.List)]
